@@ -24,7 +24,7 @@ func init() {
 		Run:  runC26,
 		Race: true,
 		Quick: 2400, Thor: 150000, QuickWallS: 45,
-		Rule: "a world = one UConn shared by 1-3 Handshake/HandshakeContext callers (each context may be cancelled at a drawn scheduler step, before or after its call returned), a reader, a writer, optionally a closer (Close/CloseWrite at a drawn step) and optionally a transport fault; a quarter of the TLS 1.3 worlds use the reference server, which sends KeyUpdate(update_requested) between its echo writes; 40% of the TLS 1.2 worlds use the reference server, which sends a HelloRequest after its handshake or between its echo writes (client renegotiation support drawn: never/once/freely) - the renegotiation then fails, only safety is asserted; after the first phase two further tasks call ConnectionState().ExportKeyingMaterial concurrently with different contexts (compared with the server's values); every mutex acquisition, atomic operation and transport operation is a scheduling point; non-trivial = >=2 client tasks overlapped (one was granted between another's invoke and return); distinct = (task set, parrot, peer, fault kind, schedule hash)",
+		Rule: "a world = one UConn shared by 1-3 Handshake/HandshakeContext callers (each context may be cancelled at a drawn scheduler step, before or after its call returned), a reader, a writer, optionally a closer (Close/CloseWrite at a drawn step, 40% followed by the other of the two a few steps later) and optionally a transport fault; a quarter of the TLS 1.3 worlds use the reference server, which sends KeyUpdate(update_requested) between its echo writes; 40% of the TLS 1.2 worlds use the reference server, which sends a HelloRequest after its handshake or between its echo writes (client renegotiation support drawn: never/once/freely) - the renegotiation then fails, only safety is asserted; after the first phase two further tasks call ConnectionState().ExportKeyingMaterial concurrently with different contexts (compared with the server's values); every mutex acquisition, atomic operation and transport operation is a scheduling point; non-trivial = >=2 client tasks overlapped (one was granted between another's invoke and return); distinct = (task set, parrot, peer, fault kind, schedule hash)",
 		Assumptions: []string{
 			"the race detector sees only program synchronisation because scheduler hand-off uses a no-op-Locker sync.Cond and //go:norace state (DESIGN 2.7); races that need true parallelism inside one library call are outside the simulator",
 			"'every call returns within the I/O deadline' is checked against the 20 s connection deadline the scenario sets plus the library's own 5 s close_notify allowance",
@@ -80,9 +80,11 @@ func runC26(c *Ctx) {
 	}
 	closer := 0 // 0 none, 1 Close, 2 CloseWrite
 	closeAt := 0
+	closer2, closeGap := false, 0
 	if ch.Bool(35, "closer") {
 		closer = 1 + ch.Pick(2, "closer-kind")
 		closeAt = ch.Range(0, 1500, "close-step")
+		closer2, closeGap = ch.Bool(40, "second-closer"), ch.Range(0, 6, "second-closer-gap")
 	}
 	fault := ch.Pick(6, "fault") // 0,1,2: none; 3 reset s->c; 4 eof s->c; 5 stall
 	faultOff := int64(ch.Range(0, 4000, "fault-off"))
@@ -262,6 +264,18 @@ func runC26(c *Ctx) {
 			}
 			closed = true
 			closeAtT = w.Now()
+		}))
+	}
+	// a second closer: the other of Close / CloseWrite at a nearby step (both may overlap inside
+	// closeNotify; exactly one close_notify may go out - the data race, if any, is the detector's)
+	if closer != 0 && closer2 {
+		phase1 = append(phase1, w.Go("closer2", func() {
+			simrt.WaitSteps(closeAt + closeGap)
+			if closer == 1 {
+				u.CloseWrite()
+			} else {
+				u.Close()
+			}
 		}))
 	}
 	w.RunUntil(phase1...)
